@@ -80,9 +80,11 @@ func (c *Ctx) adversarialTimes() {
 	}
 	var reqs []string
 	var keys []key
-	sizes := []int{2, 4, 8, 12, 16}
+	// (the fan-out families double the work per level when a memo is lost: 32–48 levels of a 2 KB
+	// document decide between microseconds and hours)
+	sizes := []int{2, 4, 8, 12, 16, 24, 32, 48}
 	if c.Thorough() {
-		sizes = append(sizes, 24, 32)
+		sizes = append(sizes, 64, 96, 128)
 	}
 	for _, n := range sizes {
 		for _, f := range gen.Adversarial(n) {
@@ -118,11 +120,50 @@ func (c *Ctx) adversarialTimes() {
 	}
 }
 
+// loaderCrashSweep: the loading half of C02 on the real loader — every generated single-fault type
+// system (each clause, one source and split over several), valid ones, and token mutations of the
+// corpus must come back with a schema or an error: no panic, no crash, no hang. (What the loader
+// answers is C07's business.)
+func (c *Ctx) loaderCrashSweep() {
+	var reqs []string
+	add := func(srcs []string) {
+		var hx []string
+		for _, s := range srcs {
+			hx = append(hx, impl.HexW([]byte(s)))
+		}
+		reqs = append(reqs, "loadcanon "+strings.Join(hx, " "))
+	}
+	for i := 0; i < c.Pick(1500, 15000); i++ {
+		r := c.R.Fork(uint64(i) + 41_000_000)
+		s := gen.GenSchema(r, r.Intn(12))
+		cl := gen.SchemaClauses[i%len(gen.SchemaClauses)]
+		f := gen.InjectSchemaFaultClause(r, s, cl)
+		add(f.Sources)
+		add(f.Schema.Render(r, 1+r.Intn(4)))
+		if i%4 == 0 {
+			add(s.Render(r, 1+r.Intn(3)))
+		}
+	}
+	_, ss := RepoGraphQLInputs()
+	for i := 0; i < c.Pick(3000, 30000); i++ {
+		add([]string{MutateTokens(c.R, ss[c.R.Intn(len(ss))])})
+	}
+	out := c.Worker.Map(reqs)
+	for i, o := range out {
+		c.Ev.Case("load:"+clip(o, 60), true)
+		if strings.HasPrefix(o, "CRASH") || strings.HasPrefix(o, "PANIC") || o == "TIMEOUT" {
+			c.Report("runtime", "load-crash", fmt.Sprintf("LoadSchema did not return normally: %s on %s", clip(o, 300), clip(reqs[i], 300)), map[string]any{"op": "loadcanon", "request": reqs[i], "go_observation": clip(o, 2000)})
+		}
+	}
+	c.Ev.Count("loader-crash-sweep", len(reqs))
+}
+
 func checkC02(c *Ctx) {
 	c.validateSuite(c.Pick(60000, 600000))
 	pairs := c.genPairs(c.Pick(150, 1500), 40)
 	c.valPropsSweep(pairs, func(string) bool { return false }) // crashes and timeouts only
 	c.adversarialTimes()
+	c.loaderCrashSweep()
 	c.Ev.Rule = "validator vs Lean model on the imported graphql-js cases, their mutations (22 mutation kinds) and random rule subsets (all rules but OverlappingFieldsCanBeMerged are modelled); the REAL default rule set on generated valid / faulty / type-blind documents over generated schemas and on the adversarial size families (fragment fan-out, cycles through fields, alias ladders …): no crash, no timeout, no multi-second validation. Non-trivial: at least one error; distinct by error list."
 }
 
